@@ -197,6 +197,24 @@ def unjson(v):
 def replay_contract(c, obligation, cex):
     """Replay under each socket chunking strategy (only matters for contracts whose inputs
     contain the Connection model)."""
+    nr = getattr(c, 'native_replay_', None)
+    if nr is not None:
+        try:
+            out = nr(obligation, cex)
+        except Exception as e:
+            out = {"confirmed": None, "error": "%s: %s" % (type(e).__name__, e),
+                   "trace": traceback.format_exc()[-1500:]}
+        out.setdefault("function", c.qualname)
+        out.setdefault("obligation", obligation)
+        return out
+    if c.qualname.startswith("kmip.services.server.engine.KmipEngine._process_") and \
+            c.qualname.rsplit('.', 1)[-1] not in ("_process_batch", "_process_operation", "_process_template_attribute"):
+        from . import engine_replay
+        try:
+            return engine_replay.replay_handler(c, obligation, cex)
+        except Exception as e:
+            return {"confirmed": None, "error": "%s: %s" % (type(e).__name__, e),
+                    "trace": traceback.format_exc()[-1500:], "function": c.qualname, "obligation": obligation}
     last = None
     uses_conn = 'vf.envmodel.Connection' in repr(cex)
     for strat in (['all', 'one-then-max', 'ones'] if uses_conn else ['all']):
@@ -352,6 +370,13 @@ def _replay_contract(c, obligation, cex):
                     if r is not True and r is not None:
                         viol = str(r)
             confirmed = True if viol else False
+            if raised is not None and isinstance(raised, (AttributeError, TypeError)) and \
+                    any(t in str(raised) for t in ("'KmipEngine' object has no attribute", "vf.", "DbSession",
+                                                   "SessionFactory")):
+                # the abstract engine/store of the counterexample is not a runnable environment:
+                # the native run says nothing (a contract-specific native_replay is needed)
+                confirmed = None
+                out["note"] = "native run stopped in the replay harness, not in the code under contract"
             out["violated_clause"] = viol
         out["confirmed"] = confirmed
     except pyvc.Raised as r:
